@@ -78,7 +78,7 @@ func checkC14(c *Ctx, r *Report) {
 	// (1) key provenance
 	r.Rule("key-is-record-id", "records are stored under the record ID decoded from their own SDR header", 1)
 	// isHdrField: v is a load of field f of a decoded SDR header (seen through helpers)
-	isHdrField := func(v ssa.Value, f string) bool {
+	isHdrField1 := func(v ssa.Value, f string) bool {
 		ld, ok := v.(*ssa.UnOp)
 		if !ok || ld.Op != token.MUL {
 			return false
@@ -95,6 +95,23 @@ func checkC14(c *Ctx, r *Report) {
 				}
 			}
 			if !isH || a.SelString() != f {
+				return false
+			}
+		}
+		return true
+	}
+	// a value that is the header's field f — read where it is used, or handed to a helper as
+	// an argument (`readBody(…, header.Length)`)
+	isHdrField := func(v ssa.Value, f string) bool {
+		if isHdrField1(v, f) {
+			return true
+		}
+		os := viewOrigins(walk, v)
+		if len(os) == 0 {
+			return false
+		}
+		for _, o := range os {
+			if !isHdrField1(o, f) {
 				return false
 			}
 		}
@@ -670,7 +687,6 @@ func lastCallBefore(ret *ssa.Return) string {
 	}
 	return "?"
 }
-
 
 // stripRecv: the signature of a method without its receiver (as an interface declares it).
 func stripRecv(sig *types.Signature) *types.Signature {
